@@ -73,6 +73,24 @@ impl Visitor<Diagnostic> for RuleProgramTaskDefinitionExists {
                     );
                 }
             }
+
+            // A function block instance of the program can also be
+            // associated with a task
+            for fb_task in &program.fb_tasks {
+                if !task_names.contains(&fb_task.task_name) {
+                    self.diagnostics.push(
+                        Diagnostic::problem(
+                            Problem::ProgramMissingTaskConfig,
+                            Label::span(
+                                fb_task.task_name.span(),
+                                "Reference to task configuration",
+                            ),
+                        )
+                        .with_context_id("program", &program.name)
+                        .with_context_id("task name", &fb_task.task_name),
+                    );
+                }
+            }
         }
 
         Ok(())
